@@ -102,3 +102,6 @@ def gen_ops(rng, tier, ctx=None):
 
 def nontrivial(line):
     return line if line.startswith("mpq_") else None
+
+# source pins: the C the Lean model mirrors (see tools/pins.py)
+PINS = [('mpq/cmp.c', None), ('mpq/cmp_ui.c', None), ('mpq/cmp_si.c', None), ('mpq/get_d.c', None)]
